@@ -297,6 +297,56 @@ func meaningfulPackets(rng *rand.Rand, f func(*dhcpv4.DHCPv4)) {
 			f(p)
 		}
 	}
+	// packets with a history: received from another implementation (options in any order, split, padded; any hlen; name
+	// fields in use), then changed the way relays and servers change what they forward - and encoded like any other value:
+	// what is written is a function of the contents, not of where the packet came from
+	for k := 0; k < 60; k++ {
+		w, _ := wirePacket4(rng)
+		q, err := dhcpv4.FromBytes(w)
+		if err != nil {
+			continue
+		}
+		switch k % 6 {
+		case 0: // nothing changed
+		case 1:
+			q.ClientHWAddr = net.HardwareAddr(randBytes(rng, []int{0, 1, 6, 8}[rng.Intn(4)])) // another (usually shorter) hardware address
+		case 2:
+			q.GatewayIPAddr, q.HopCount = ip(), q.HopCount+1
+			q.UpdateOption(dhcpv4.OptRelayAgentInfo(dhcpv4.OptGeneric(dhcpv4.AgentCircuitIDSubOption, []byte("eth0"))))
+		case 3:
+			for c := range q.Options {
+				q.DeleteOption(dhcpv4.GenericOptionCode(c))
+				break
+			}
+			q.UpdateOption(dhcpv4.OptGeneric(dhcpv4.GenericOptionCode(3), ip()))
+		case 4:
+			q.ServerHostName, q.BootFileName = "", "other"
+			q.NumSeconds, q.Flags = uint16(rng.Intn(65536)), 0x8000
+		default:
+			q.UpdateOption(dhcpv4.OptGeneric(dhcpv4.GenericOptionCode(250), randBytes(rng, 300)))
+			q.UpdateOption(dhcpv4.OptGeneric(dhcpv4.GenericOptionCode(1), randBytes(rng, 4)))
+		}
+		f(q)
+	}
+	// boot options that repeat what the header fields say, exactly and almost
+	for k := 0; k < 6; k++ {
+		p, _ := dhcpv4.New(dhcpv4.WithMessageType(dhcpv4.MessageTypeAck))
+		copy(p.TransactionID[:], randBytes(rng, 4))
+		p.OpCode = dhcpv4.OpcodeBootReply
+		p.ServerHostName, p.BootFileName = "tftp.example", "boot/pxelinux.0"
+		sn, fn := p.ServerHostName, p.BootFileName
+		if k%3 == 1 {
+			sn, fn = sn+"x", fn[:len(fn)-1]
+		}
+		if k%3 != 2 {
+			p.UpdateOption(dhcpv4.OptTFTPServerName(sn))
+		}
+		p.UpdateOption(dhcpv4.OptBootFileName(fn))
+		if k >= 3 {
+			p.UpdateOption(dhcpv4.OptGeneric(dhcpv4.GenericOptionCode(224), randBytes(rng, 200)))
+		}
+		f(p)
+	}
 	for _, big := range []int{0, 40, 60, 61, 200, 255, 256, 600} {
 		for _, nEmpty := range []int{1, 2, 5} {
 			p, _ := dhcpv4.New()
